@@ -236,6 +236,8 @@ Size(c) == Len(Image(c))
 
 HasChoice(c) == c.kind \in {"tfb", "pfb"} /\ c.fci.f \in {"nack", "fir"}
 
+RECURSIVE HasChoiceDeep(_)
+HasChoiceDeep(c) == IF c.kind = "compound" THEN \E i \in 1..Len(c.members) : HasChoiceDeep(c.members[i]) ELSE HasChoice(c)
 RECURSIVE IsImage(_, _)
 RECURSIVE IsImageList(_, _, _)
 IsImage(c, bytes) ==
@@ -246,7 +248,9 @@ IsImage(c, bytes) ==
             /\ SubSeq(bytes, 1, 12) = Header(p > 0, FciFormat(c.fci), PTOf(c.kind), n) \o BE32(c.sender) \o BE32(c.media)
             /\ IsFci(c.fci, SubSeq(bytes, 13, n - p))
             /\ SubSeq(bytes, n - p + 1, n) = PadTrailer(p)
-    ELSE IF c.kind = "compound" THEN IsImageList(c.members, 1, bytes)
+    ELSE IF c.kind = "compound"
+         THEN IF HasChoiceDeep(c) THEN IsImageList(c.members, 1, bytes)
+              ELSE bytes = Image(c)          \* no member leaves the writer a choice: one image (linear, for very long lists)
     ELSE bytes = Image(c)
 IsImageList(ms, i, bytes) ==
     IF i > Len(ms) THEN bytes = <<>>
